@@ -164,4 +164,24 @@ def nodupKeysB : List (Int × Entry) → Bool
 def sameAssocB (a b : List (Int × Entry)) : Bool :=
   a.all (fun p => b.contains p) && b.all (fun p => a.contains p) && nodupKeysB a && nodupKeysB b
 
+/-! ### What a written cross-reference stream lists (executable hypothesis of `C02_stream_lists`) -/
+
+/-- The numbers one `/Index` range covers, each with what its row says (`none` = free / unknown type). -/
+def rangeRows : Nat → Nat → List Row → List (Nat × Option Entry)
+  | _, 0, _ => []
+  | _, _ + 1, [] => []
+  | s, c + 1, r :: rows => (s, specRowEntry r) :: rangeRows (s + 1) c rows
+
+def flatRows : List (Nat × Nat) → List Row → List (Nat × Option Entry)
+  | [], _ => []
+  | (s, c) :: rest, rows => rangeRows s c rows ++ flatRows rest (rows.drop c)
+
+def inuseRows (l : List (Nat × Option Entry)) : List (Nat × Entry) :=
+  l.filterMap (fun p => p.2.map (fun e => (p.1, e)))
+
+/-- The ranges do not overlap and the in-use rows are the writer's entry list (any order). -/
+def streamListsB (ranges : List (Nat × Nat)) (rows : List Row) (ents : List (Nat × Entry)) : Bool :=
+  nodupNat ((flatRows ranges rows).map (·.1)) &&
+    sameAssocB (entsInt (inuseRows (flatRows ranges rows))) (entsInt ents)
+
 end PdfVerif.Xref
